@@ -203,6 +203,20 @@ theorem lvB_spec (env : Env) (lv : Expr) (h : lvB env lv = true) : LvOk env lv :
     exact Or.inr ⟨rfl, fragEB_spec env _ h⟩
   | _ => simp [lvB] at h
 
+/-- target of `put` / `delete` / `hilite`: a variable the environment classifies the way the tree does, `field e`, a chunk -/
+def tgB (env : Env) : Expr → Bool
+  | .var k n => lvB env (.var k n)
+  | .field e => fragEB env (.field e)
+  | .chunk c a b d => fragEB env (.chunk c a b d)
+  | _ => false
+
+theorem tgB_spec (env : Env) (lv : Expr) (h : tgB env lv = true) : LvOk env lv := by
+  cases lv with
+  | var k n => exact lvB_spec env _ (by simpa only [tgB] using h)
+  | field e => simp only [tgB] at h; exact Or.inr ⟨rfl, fragEB_spec env _ h⟩
+  | chunk c a b d => simp only [tgB] at h; exact Or.inr ⟨rfl, fragEB_spec env _ h⟩
+  | _ => simp [tgB] at h
+
 /-- loop variable of `repeat with`: a variable the environment classifies the way the tree does -/
 def varOkB (env : Env) : Expr → Bool
   | .var k n => (match env.resolveVar n with | .var k' n' => decide (k' = k) && decide (n' = n) | _ => false)
@@ -225,6 +239,9 @@ def fragSB (env : Env) : Stmt → Bool
   | .set lv v => lvB env lv && fragEB env v
   | .call f as => cmdName f && !(Tok.id f).kw "sound" && !(Tok.id f).kw "go" && !env.isVar f && fragLB env as
   | .exit => true
+  | .put md v lv => fragEB env v && tgB env lv && (decide (md ≠ .into) || lvKind lv)
+  | .delete t => tgB env t
+  | .hilite t => tgB env t
   | .ifThen c t e => fragEB env c && fragSsB env t && fragSsB env e
   | .repeatWhile c b => fragEB env c && fragSsB env b
   | .repeatWith v a b _ body => varOkB env v && fragEB env a && fragEB env b && fragSsB env body
@@ -257,9 +274,18 @@ theorem fragSB_spec (env : Env) : ∀ (s : Stmt), fragSB env s = true → Spec.F
     simp only [fragSB, Bool.and_eq_true] at h
     simp only [Spec.FragS]
     exact ⟨varOkB_spec env v h.1.1.1, fragEB_spec env a h.1.1.2, fragEB_spec env b h.1.2, fragSsB_spec env body h.2⟩
-  | .put .., h => by simp [fragSB] at h
-  | .delete _, h => by simp [fragSB] at h
-  | .hilite _, h => by simp [fragSB] at h
+  | .put md v lv, h => by
+    simp only [fragSB, Bool.and_eq_true, Bool.or_eq_true, decide_eq_true_eq] at h
+    simp only [Spec.FragS]
+    exact ⟨fragEB_spec env v h.1.1, tgB_spec env lv h.1.2, fun hm => h.2.resolve_left (fun hne => hne hm)⟩
+  | .delete t, h => by
+    simp only [fragSB] at h
+    simp only [Spec.FragS]
+    exact tgB_spec env t h
+  | .hilite t, h => by
+    simp only [fragSB] at h
+    simp only [Spec.FragS]
+    exact tgB_spec env t h
   | .mcall .., h => by simp [fragSB] at h
   | .tell .., h => by simp [fragSB] at h
   | .repeatIn .., h => by simp [fragSB] at h
